@@ -5,10 +5,12 @@ pub mod c02;
 pub mod c03;
 pub mod c04;
 pub mod c05;
+pub mod c06;
 pub mod c07;
 pub mod c12;
 pub mod c14;
 pub mod c15;
+pub mod c16;
 pub mod c18;
 pub mod c19;
 pub mod c20;
@@ -20,9 +22,11 @@ pub fn dispatch(ctx: &Ctx) -> Option<Outcome> {
         "C03" => c03::run(ctx),
         "C04" => c04::run(ctx),
         "C05" => c05::run(ctx),
+        "C06" => c06::run(ctx),
         "C07" => c07::run(ctx),
         "C12" => c12::run(ctx),
         "C15" => c15::run(ctx),
+        "C16" => c16::run(ctx),
         "C18" => c18::run(ctx),
         "C19" => c19::run(ctx),
         "C20" => c20::run(ctx),
@@ -32,6 +36,10 @@ pub fn dispatch(ctx: &Ctx) -> Option<Outcome> {
 }
 
 /// Child-process entry point (`tcv worker <kind> ...`) for crash / multi-process workloads.
-pub fn worker_main(_args: &[String]) -> i32 {
-    64
+pub fn worker_main(args: &[String]) -> i32 {
+    match args.first().map(|s| s.as_str()) {
+        Some("c06") => c06::worker(&args[1..]),
+        Some("c06kill") => c06::worker_kill(&args[1..]),
+        _ => 64,
+    }
 }
